@@ -82,18 +82,22 @@ def run(M, rec, tier, seed, k, n):
         CURRENT["net_of_last_step"] = built.net
 
     W.USER_KINDS["prob"] = 0.12  # user-defined origin / link kinds (README "Extensions") are networks too
+    from vf import batched
+
+    # the engine primitives are the equations themselves, also when evaluated for K cases at once
+    batched.batched_primitives(M, rec, rng, PROP, 300 if tier == "quick" else 3000)
     try:
         if tier == "quick":
             W.numpy_steps(M, rec, rng, 450, draws=3, opts_prob=0.15, before_case=on_case)
             W.symbolic_steps(M, rec, rng, symvals, 45, points=2, opts_prob=0.15, before_case=on_case)
-            W.closed_loop(M, rec, rng, 6, 90, before_case=on_case)
+            W.closed_loop(M, rec, rng, 7, 80, before_case=on_case)
             W.inplace_pairs(M, rec, rng, 40, before_case=on_case)
             W.small_valid_steps(M, rec, rng, 2, before_case=on_case, seed=seed)
             W.symbolic_param_steps(M, rec, rng, symvals, 30, before_case=on_case)
         else:
             W.numpy_steps(M, rec, rng, 6000, draws=3, opts_prob=0.15, before_case=on_case)
             W.symbolic_steps(M, rec, rng, symvals, 420, points=3, opts_prob=0.15, before_case=on_case)
-            W.closed_loop(M, rec, rng, 12, 300, before_case=on_case)
+            W.closed_loop(M, rec, rng, 14, 260, before_case=on_case)
             W.inplace_pairs(M, rec, rng, 300, before_case=on_case)
             W.small_valid_steps(M, rec, rng, 3, k, n, before_case=on_case, seed=seed)
             # every valid 4-node topology (49 551 digraphs) with the reduced role set (253 151 networks)
